@@ -39,13 +39,29 @@ class C01(Check):
                'rxsci/operators/filter.py', 'rxsci/operators/first.py', 'rxsci/operators/last.py', 'rxsci/operators/take.py', 'rxsci/operators/tee_map.py',
                'rxsci/operators/flat_map.py', 'rxsci/operators/do_action.py', 'rxsci/operators/assert_.py', 'rxsci/operators/progress.py',
                'rxsci/operators/distinct_until_changed.py', 'rxsci/data/batch.py', 'rxsci/data/clip.py', 'rxsci/data/fill_none.py', 'rxsci/data/to_list.py', 'rxsci/data/to_array.py']
-    REQUIRED_TAGS = DUAL + ['zip', 'merge', 'combine_latest', 'group', 'multiplex', 'roll', 'split', 'len>=3', 'truthy-predicates', 'many-groups', 'scale']
+    REQUIRED_TAGS = DUAL + ['zip', 'merge', 'combine_latest', 'group', 'multiplex', 'roll', 'split', 'len>=3', 'truthy-predicates', 'many-groups', 'scale', 'assert-fails']
     REQUIRED_OBSERVED = ['groups_compared', 'items_compared']
 
     def generate(self, rng, tier, shard, nshards):
         n = 6000 if tier == 'quick' else 10 ** 7
         modes = ['group', 'group', 'group', 'multiplex', 'roll', 'split']
         for k in range(n):
+            if k % 25 == 12:
+                # failing assertions (separate sub-mode: a failed assert stops the WHOLE multiplexed stream, so the oracle is
+                # weaker by necessity - same error as the plain run of the group that fails first, other groups a prefix)
+                pre = rng.choice([[], [['map', 'add:%d' % rng.randint(0, 3)]], [['filter', 'modne:%d:0' % rng.randint(2, 4)]], [['map', 'mod:%d' % rng.randint(3, 9)]]])
+                a = rng.choice([['assert_', 'lt:%d' % rng.randint(4, 14)], ['assert_1', 'le2'], ['assert_1', 'le2']])
+                post = rng.choice([[], [['map', 'mul:2']], [['identity']]])
+                ng = rng.randint(1, 4)
+                seqs = []
+                for _ in range(ng):
+                    xs = sorted(rng.randint(0, 9) for _ in range(rng.randint(0, 10)))
+                    if xs and rng.random() < 0.7:
+                        xs.insert(rng.randint(0, len(xs)), rng.choice([0, 3, 20]))     # a descent or a too-large value somewhere
+                    seqs.append(xs)
+                yield {'prog': pre + [a] + post, 'mode': 'assert-fail', 'seqs': seqs, 'shape': rng.choice(gen.INTERLEAVINGS),
+                       'iseed': rng.randrange(1 << 30), 'truthy': False}
+                continue
             truthy = (k % 10 == 9)
             scale = (k % 150 == 75)
             opts = gen.GenOpts(dual_only=True, max_depth=2 if not scale else 1, truthy_predicates=truthy, tee_weight=3, no_streaming_mutation=True,
@@ -118,6 +134,8 @@ class C01(Check):
         if case.get('truthy') and any(nd[0] == 'filter' and nd[1].startswith('modtruthy') for _, nd in progs.walk(prog)):
             mech = 'filter-mux-truthy-predicate'
 
+        if mode == 'assert-fail':
+            return self._eval_assert_fail(case, out)
         if mode == 'group':
             M = 64 if len(seqs) <= 64 else 512
             r = random.Random(case['iseed'])
@@ -179,6 +197,70 @@ class C01(Check):
                 return out.fail('multiplexed-output-differs-from-plain-output', mech=mech, group=g, group_items=its[:40], first_difference=k,
                                 plain=s.out[max(0, k - 1):k + 3], mux=mux_out[max(0, k - 1):k + 3], n_plain=len(s.out), n_mux=len(mux_out))
         if len(units) >= 2 and len(prog) >= 2 and emitted:
+            out.nontrivial = True
+        return out
+
+    def _eval_assert_fail(self, case, out):
+        prog, seqs = case['prog'], case['seqs']
+        M = 64
+        r = random.Random(case['iseed'])
+        pairs = gen.interleave_keys(r, seqs, case['shape'])
+        items = [v * M + g for g, v in pairs]
+        P = [['map', 'div:%d' % M]] + prog
+        head, tail = [], []
+        snap = progs.run_mux([['group_by', 'mod:%d' % M, P]], items, taps={(0,): (head, tail)})
+        group_of = {e[1]: e[2] % M for e in head if e[0] == 'N'}
+        got = {}
+        for e in tail:
+            if e[0] == 'N':
+                got.setdefault(group_of.get(e[1], repr(e[1])), []).append(e[2])
+        # plain runs of every group; which of them fail, and at which of their items
+        cache = {}
+        plains, fail_pos = {}, {}
+        for g, xs in enumerate(seqs):
+            if not xs:
+                continue
+            enc = [v * M + g for v in xs]
+            ops_ = cache.setdefault('ops', progs.build(P))
+            import rx
+            from ..common import Snap, subscribe
+            seen = []
+            s = subscribe(rx.from_(enc).pipe(rs.ops.do_action(on_next=seen.append), *ops_), Snap())
+            plains[g] = s
+            if s.err is not None:
+                fail_pos[g] = len(seen) - 1            # index (within the group) of the item that made the plain run fail
+        out.observed['groups_compared'] += len(plains)
+        # first failing item in the interleaved order
+        counts = {}
+        first = None
+        for g, v in pairs:
+            i = counts.get(g, 0)
+            counts[g] = i + 1
+            if g in fail_pos and fail_pos[g] == i:
+                first = (g, dict(counts))
+                break
+        if first is None:
+            if snap.err is not None or not snap.done:
+                return out.fail('assert:multiplexed-stream-failed-although-no-group-fails-alone', error=repr(snap.err))
+            for g, s in plains.items():
+                if norm(s.out) != norm(got.get(g, [])):
+                    return out.fail('multiplexed-output-differs-from-plain-output', group=g, plain=s.out[:20], mux=got.get(g, [])[:20])
+            return out
+        out.tags.append('assert-fails')
+        g0, seen_counts = first
+        want = plains[g0].err
+        if snap.err is None:
+            return out.fail('assert:multiplexed-stream-did-not-fail', failing_group=g0, plain_error=repr(want), mux_out=snap.out[:20])
+        if type(snap.err) is not type(want) or str(snap.err) != str(want):
+            return out.fail('assert:error-differs-from-the-plain-run-of-the-first-failing-group', mux=repr(snap.err), plain=repr(want), failing_group=g0)
+        for g, s in plains.items():
+            m = got.get(g, [])
+            out.observed['items_compared'] += len(m)
+            if norm(s.out[:len(m)]) != norm(m):
+                return out.fail('assert:group-output-is-not-a-prefix-of-its-plain-output', group=g, plain=s.out[:20], mux=m[:20])
+        if norm(got.get(g0, [])) != norm(plains[g0].out):
+            return out.fail('assert:items-before-the-failing-item-were-lost', group=g0, plain=plains[g0].out[:20], mux=got.get(g0, [])[:20])
+        if len(plains) >= 2:
             out.nontrivial = True
         return out
 
